@@ -302,6 +302,26 @@ def sched_epochs(ctx, which=(FB, FF)):
             ok = comp is not None and isinstance(comp.generators[0].iter, ast.Name) and \
                 comp.generators[0].iter.id == 'measurements' and \
                 not comp.generators[0].ifs and '.data.index' in norm_text(comp.elt)
+        if mg and comp is not None and mg[2].args:
+            # anything merged in besides the streams (the seed that keeps np.hstack from failing
+            # on an empty list) must be an EMPTY array
+            extra = [e for l_ in ast.walk(mg[2].args[0]) if isinstance(l_, (ast.List, ast.Tuple))
+                     and not any(l_ is x for x in ast.walk(comp)) for e in l_.elts
+                     if not isinstance(e, (ast.ListComp, ast.GeneratorExp, ast.Starred))]
+            for e in extra:
+                empty = isinstance(e, ast.Call) and M.res(e.func) in (
+                    'numpy.empty', 'numpy.zeros', 'numpy.array', 'numpy.asarray', 'numpy.ones') \
+                    and len(e.args) >= 1 and (
+                        (isinstance(e.args[0], ast.Constant) and e.args[0].value == 0) or
+                        (isinstance(e.args[0], (ast.List, ast.Tuple)) and not e.args[0].elts) or
+                        (isinstance(e.args[0], ast.Tuple) and len(e.args[0].elts) == 1 and
+                         isinstance(e.args[0].elts[0], ast.Constant) and
+                         e.args[0].elts[0].value == 0))
+                ctx.ob('SCHED-EPOCHS', empty, None, 'the array merged in besides the streams is '
+                       'empty', f=f, node=e, key='seed-empty',
+                       why='`%s` is merged into the epoch list besides the measurement streams: '
+                           'it contributes epochs that no measurement has (uninitialised values '
+                           'for np.empty)' % norm_text(e)[:40])
         ctx.ob('SCHED-EPOCHS', ok, None, 'epoch list merges the index of every measurement '
                'object', f=f, node=first, key='merge',
                why='epoch list is not built from the time index of every element of '
